@@ -40,6 +40,7 @@ func metaStates(meta *FuncInfo) ([]string, bool) {
 func runC20(c *Ctx) {
 	p := c.P
 	c.Rule("C20-R1", "Removed state only for ErrorCheck and RuleDependencyCheck", 28)
+	defer c20BothVersionsAreRead(c, "C20-R1")
 	c.Rule("C20-R2", "dependency check sees only the filtered (non-removed, error-free) entries", 5)
 	c.Rule("C20-R3", "replacement test before scan; every rule and selector scanned; dedup and sort before rendering; emitted only when non-empty", 9)
 	c.Rule("C20-R4", "every configured check is dispatched with the full entry list; every problem forwarded", 8)
@@ -1017,4 +1018,318 @@ func c20Round5(c *Ctx) {
 		c.Check(n >= 1 && okP, R, "GlobFinder.Find:the path filter is asked about the path the file was found under", gf.Decl.Pos(), "fp.path",
 			"include/exclude patterns are applied to `"+got+"`: the branch finder filters on the link path, so a rule file that belongs to the included tree only through a symlink is loaded by one finder and not by the other — its rules stop counting as dependants and replacements")
 	}
+}
+
+// c20BothVersionsAreRead: a rule is "removed" when it is in the old text of a changed file and not in the
+// new one. GitBranchFinder.Find therefore reads BOTH texts of every change, whatever git calls the change:
+// the two readRules calls in the loop over the changes stand under no condition, or only under one about
+// the text itself (its length). A file deleted and re-added on the branch has status "added" and an old
+// text; skipping the old text by status loses every rule that was dropped in between.
+func c20BothVersionsAreRead(c *Ctx, R string) {
+	find := c.MustFunc(R, "internal/discovery.GitBranchFinder.Find")
+	if find == nil {
+		return
+	}
+	info := find.Pkg.TypesInfo
+	pm := parentMap(find.Decl.Body)
+	seen := map[string]bool{}
+	ast.Inspect(find.Decl.Body, func(n ast.Node) bool {
+		call, ok := n.(*ast.CallExpr)
+		if !ok || !isCallTo(info, call, "internal/discovery.readRules") {
+			return true
+		}
+		which := ""
+		for _, a := range call.Args {
+			ast.Inspect(a, func(m ast.Node) bool {
+				if sel, ok := m.(*ast.SelectorExpr); ok && (sel.Sel.Name == "Before" || sel.Sel.Name == "After") && fieldOwner(info, sel) == "internal/git.BodyDiff" {
+					which = sel.Sel.Name
+				}
+				return true
+			})
+		}
+		if which == "" {
+			return true
+		}
+		seen[which] = true
+		var loop ast.Node = find.Decl.Body
+		for cur := pm[ast.Node(call)]; cur != nil; cur = pm[cur] {
+			if _, isRange := cur.(*ast.RangeStmt); isRange {
+				loop = cur.(*ast.RangeStmt).Body
+				break
+			}
+		}
+		bad := ""
+		for _, g := range lexicalGuards(pm, call, loop) {
+			aboutText := false
+			ast.Inspect(g.E, func(m ast.Node) bool {
+				if sel, ok := m.(*ast.SelectorExpr); ok && sel.Sel.Name == which && fieldOwner(info, sel) == "internal/git.BodyDiff" {
+					aboutText = true
+				}
+				return true
+			})
+			if !aboutText {
+				bad = exprStr(g.E)
+			}
+		}
+		c.Check(bad == "", R, "Find:the "+strings.ToLower(which)+" text of every change is read", call.Pos(), "unconditional",
+			"the "+strings.ToLower(which)+" version of a changed file is read only under `"+bad+"`: rules that exist in the skipped text are never compared, so a removed rule is not seen as removed (or an added one as added)")
+		return true
+	})
+	c.Check(seen["Before"] && seen["After"], R, "Find:both texts are read", find.Decl.Pos(), "Before and After", "GitBranchFinder.Find no longer reads both Body.Before and Body.After through readRules")
+}
+
+// ---- round 6 rules (shared file for brevity) ----
+
+// c13SeriesLabelsAreCanonical: a series' identity across slices is the fingerprint of its label set, and the
+// hash of a label set depends on the order of its labels. Every label set handed to AppendSampleToRanges is
+// therefore built by a constructor that sorts (MetricToLabels, labels.FromMap/FromStrings/New), or by a
+// builder on which Sort() is called in the same function.
+func c13SeriesLabelsAreCanonical(c *Ctx, R string) {
+	prom := c.P.Pkg("internal/promapi")
+	if prom == nil {
+		return
+	}
+	info := prom.TypesInfo
+	n := 0
+	for _, fi := range c.P.AllFuncs() {
+		if fi.Pkg != prom || fi.Decl.Body == nil || c.P.IsTestFile(fi.Decl.Pos()) {
+			continue
+		}
+		sorted := map[types.Object]bool{}
+		ast.Inspect(fi.Decl.Body, func(nd ast.Node) bool {
+			if call, ok := nd.(*ast.CallExpr); ok {
+				if sel, ok := call.Fun.(*ast.SelectorExpr); ok && sel.Sel.Name == "Sort" {
+					if o := objOf(info, sel.X); o != nil {
+						sorted[o] = true
+					}
+				}
+			}
+			return true
+		})
+		var canonical func(e ast.Expr, depth int) bool
+		canonical = func(e ast.Expr, depth int) bool {
+			e = ast.Unparen(e)
+			if depth > 4 {
+				return false
+			}
+			switch x := e.(type) {
+			case *ast.Ident:
+				defs := allDefs(info, fi.Decl.Body, x)
+				if len(defs) == 0 {
+					return true // a parameter: the caller's obligation
+				}
+				for _, d := range defs {
+					if !canonical(d, depth+1) {
+						return false
+					}
+				}
+				return true
+			case *ast.CallExpr:
+				if fn := Callee(info, x); fn != nil && fn.Pkg() != nil {
+					q := fn.Pkg().Path() + "." + fn.Name()
+					switch {
+					case strings.HasSuffix(q, "internal/promapi.MetricToLabels"), q == "github.com/prometheus/prometheus/model/labels.FromMap",
+						q == "github.com/prometheus/prometheus/model/labels.FromStrings", q == "github.com/prometheus/prometheus/model/labels.New",
+						q == "github.com/prometheus/prometheus/model/labels.EmptyLabels":
+						return true
+					}
+					if fn.Name() == "Labels" {
+						if sel, ok := x.Fun.(*ast.SelectorExpr); ok {
+							if o := objOf(info, sel.X); o != nil && sorted[o] {
+								return true
+							}
+						}
+					}
+				}
+				return false
+			case *ast.CompositeLit:
+				return len(x.Elts) == 0
+			}
+			return false
+		}
+		ast.Inspect(fi.Decl.Body, func(nd ast.Node) bool {
+			call, ok := nd.(*ast.CallExpr)
+			if !ok || !isCallTo(info, call, "internal/promapi.AppendSampleToRanges") || len(call.Args) < 2 {
+				return true
+			}
+			n++
+			c.Check(canonical(call.Args[1], 0), R, shortFuncName(fi.Name)+":label sets of returned series are sorted", call.Pos(), exprStr(call.Args[1]),
+				"the label set `"+exprStr(call.Args[1])+"` is not built by a sorting constructor: its fingerprint depends on the order the labels arrived in, so the same series gets different identities in different slices and is not merged across slice boundaries")
+			return true
+		})
+	}
+	c.Check(n >= 1, R, "AppendSampleToRanges call sites enumerated", token.NoPos, itoa(n), "no call site found")
+}
+
+// c01DurationErrorsAreAlwaysReported: Prometheus rejects every `for` / `keep_firing_for` value that
+// model.ParseDuration rejects (the empty string included). In alerts/for the branch that reports it is taken
+// whenever the error is not nil: nothing else stands in its condition.
+func c01DurationErrorsAreAlwaysReported(c *Ctx, R string) {
+	cf := c.MustFunc(R, "internal/checks.AlertsForChecksFor.checkField")
+	if cf == nil {
+		return
+	}
+	info := cf.Pkg.TypesInfo
+	var errObj types.Object
+	ast.Inspect(cf.Decl.Body, func(n ast.Node) bool {
+		as, ok := n.(*ast.AssignStmt)
+		if !ok || len(as.Rhs) != 1 || len(as.Lhs) != 2 {
+			return true
+		}
+		if call, isCall := as.Rhs[0].(*ast.CallExpr); isCall {
+			if fn := Callee(info, call); fn != nil && fn.Name() == "ParseDuration" {
+				errObj = objOf(info, as.Lhs[1])
+			}
+		}
+		return true
+	})
+	if errObj == nil {
+		c.Undecided(R, "alerts/for:duration parse error bound", cf.Decl.Pos(), "no `d, err := model.ParseDuration(…)` found")
+		return
+	}
+	pm := parentMap(cf.Decl.Body)
+	n, bad := 0, ""
+	for _, cl := range compositeLits(info, cf.Decl.Body, "internal/checks.Problem") {
+		gs := lexicalGuards(pm, cl, cf.Decl.Body)
+		under := false
+		for _, g := range gs {
+			if x, isNil, ok := nilAtom(info, g); ok && !isNil && objOf(info, x) == errObj {
+				under = true
+			}
+		}
+		if !under {
+			continue
+		}
+		n++
+		for _, g := range gs {
+			if x, isNil, ok := nilAtom(info, g); ok && !isNil && objOf(info, x) == errObj {
+				continue
+			}
+			bad = exprStr(g.E)
+		}
+	}
+	c.Check(n >= 1 && bad == "", R, "alerts/for:an unparsable duration is always reported", cf.Decl.Pos(), "under `err != nil` alone",
+		"the invalid-duration problem is reported only when `"+bad+"` also holds: a value that model.ParseDuration rejects (Prometheus: the file does not load) passes alerts/for")
+}
+
+// c18PatternsAreCompiledAsValidated: validate() compiles every configured pattern on its own. What is later
+// compiled with a panicking constructor is that one pattern (between constant anchors), never several
+// patterns glued together: `\Q` without `\E`, or an unbalanced group, is valid alone and swallows the glue.
+func c18PatternsAreCompiledAsValidated(c *Ctx, R string) {
+	n := 0
+	for _, pkg := range c.P.ModPkgs() {
+		rel := relPkg(pkg.PkgPath)
+		if rel != "internal/config" && rel != "internal/checks" && rel != "cmd/pint" {
+			continue
+		}
+		info := pkg.TypesInfo
+		for _, fi := range c.P.AllFuncs() {
+			if fi.Pkg != pkg || fi.Decl.Body == nil || c.P.IsTestFile(fi.Decl.Pos()) {
+				continue
+			}
+			ast.Inspect(fi.Decl.Body, func(nd ast.Node) bool {
+				call, ok := nd.(*ast.CallExpr)
+				if !ok {
+					return true
+				}
+				fn := Callee(info, call)
+				if fn == nil || fn.Pkg() == nil {
+					return true
+				}
+				q := relPkg(fn.Pkg().Path()) + "." + fn.Name()
+				switch q {
+				case "regexp.MustCompile", "internal/config.MustCompileRegexes", "internal/config.strictRegex", "internal/checks.MustTemplatedRegexp", "internal/checks.MustRawTemplatedRegexp":
+				default:
+					return true
+				}
+				n++
+				glued := ""
+				for _, a := range call.Args {
+					ast.Inspect(a, func(m ast.Node) bool {
+						if jc, isCall := m.(*ast.CallExpr); isCall {
+							if jf := Callee(info, jc); jf != nil && jf.Pkg() != nil && jf.Pkg().Path() == "strings" && (jf.Name() == "Join" || jf.Name() == "Repeat") {
+								glued = exprStr(jc)
+							}
+						}
+						return true
+					})
+				}
+				c.Check(glued == "", R, shortFuncName(fi.Name)+"->"+fn.Name()+":one pattern per compiled expression", call.Pos(), "not glued",
+					"`"+glued+"` is compiled by a constructor that panics: the patterns were validated one by one, and a pattern that is valid alone (an open `\\Q`, an alternation) changes the meaning of the glue, so an accepted configuration crashes the run")
+				return true
+			})
+		}
+	}
+	c.Check(n >= 5, R, "panicking pattern constructors enumerated", token.NoPos, itoa(n), "fewer call sites than confirmed ("+itoa(n)+")")
+}
+
+// c05SeverityZeroIsAValue: Information is the zero value of checks.Severity. No code tells "not configured"
+// from a severity by comparing it with 0 (or with its own zero value): a configured `info` would be taken for
+// "unset" and replaced by a default of higher severity, which changes the exit status.
+func c05SeverityZeroIsAValue(c *Ctx, R string) {
+	n, bad := 0, ""
+	for _, pkg := range c.P.ModPkgs() {
+		info := pkg.TypesInfo
+		for _, f := range pkg.Syntax {
+			if c.P.IsTestFile(f.Pos()) {
+				continue
+			}
+			ast.Inspect(f, func(nd ast.Node) bool {
+				be, ok := nd.(*ast.BinaryExpr)
+				if !ok || (be.Op != token.EQL && be.Op != token.NEQ) {
+					return true
+				}
+				for _, pair := range [][2]ast.Expr{{be.X, be.Y}, {be.Y, be.X}} {
+					if typeQName(info.TypeOf(pair[0])) != "internal/checks.Severity" {
+						continue
+					}
+					n++
+					if lit, isLit := ast.Unparen(pair[1]).(*ast.BasicLit); isLit && lit.Value == "0" {
+						bad = "`" + exprStr(be) + "` at " + c.P.Pos(be.Pos())
+					}
+					break
+				}
+				return true
+			})
+		}
+	}
+	c.Check(bad == "", R, "no severity is compared with the literal 0", token.NoPos, itoa(n)+" comparisons of severities inspected",
+		"a severity is tested against 0 ("+bad+"): 0 is Information, a value a user can configure, not \"unset\"")
+}
+
+// c14RequestsDieWithTheirCaller: the deadline context of a request derives from the caller's context itself
+// (requestContext wraps its own parameter), so that a question whose asker gave up releases its worker and
+// its per-question lock together; a request detached from its caller is still on the wire when the lock is
+// free again and the same question is sent a second time.
+func c14RequestsDieWithTheirCaller(c *Ctx, R string) {
+	rc := c.MustFunc(R, "internal/promapi.Prometheus.requestContext")
+	if rc == nil {
+		return
+	}
+	info := rc.Pkg.TypesInfo
+	sig := rc.Obj.Type().(*types.Signature)
+	n, bad := 0, ""
+	ast.Inspect(rc.Decl.Body, func(nd ast.Node) bool {
+		call, ok := nd.(*ast.CallExpr)
+		if !ok || len(call.Args) < 1 {
+			return true
+		}
+		fn := Callee(info, call)
+		if fn == nil || fn.Pkg() == nil || fn.Pkg().Path() != "context" || !strings.HasPrefix(fn.Name(), "With") || fn.Name() == "WithoutCancel" {
+			return true
+		}
+		n++
+		isParam := false
+		for i := 0; i < sig.Params().Len(); i++ {
+			if objOf(info, call.Args[0]) == types.Object(sig.Params().At(i)) {
+				isParam = true
+			}
+		}
+		if !isParam {
+			bad = exprStr(call.Args[0])
+		}
+		return true
+	})
+	c.Check(n >= 1 && bad == "", R, "requestContext:derives from the caller's context", rc.Decl.Pos(), "parent is the parameter",
+		"the request context derives from `"+bad+"`, not from the caller's context: cancelling the caller no longer ends the request")
 }
